@@ -29,4 +29,5 @@ def run(tier, seed):
         'their own behaviour is audited by the bounded layer (dtype-pair laws exhaustively, cell oracle by cases)'])
     from bounded.core import attach
     attach(ctx, pb.run((PID,), tier, seed))
-    return finish(ctx, 'other')
+    from runner.core import companion_replayer
+    return finish(ctx, 'other', replayers=[(r'.', companion_replayer(ctx, ('C05.',)))])
